@@ -43,7 +43,7 @@ def build(rng, n, m, rects, place):
     def hstr(x):
         y = f'<{fmt[x][1]}>{x}</{fmt[x][1]}>' if x in fmt else x
         return f'<h{style[x]}>{y}</h{style[x]}>' if x in style else y
-    xml, expected0 = render(rects, n, m, tx, spell, para=para, hidden=lambda k, a: hid.setdefault((k, a), rng.choice(HID))[0])
+    xml, expected0 = render(rects, n, m, tx, spell, para=para, hidden=lambda k, a: hid.setdefault((k, a), rng.choice(HID))[0], tracked=rng if rng.random() < 0.4 else None)
     def expected(dup, html=False):
         def cell(c):
             out = []
